@@ -79,6 +79,8 @@ def base_specs(seed):
     while len(out) < len(want) and tries < 40:
         tries += 1
         sp = G.easy_spec(rng, rank=want[len(out)], L=128, dr=0.1, eta_max=0.18)
+        sp['labels'] = G.choose_labels(rng, sp['types'])
+        sp['via'] = str(rng.choice(G.VIAS))
         ok = True
         for solver in ('wolfe', 'armijo'):
             method, opts = SOLVERS[solver]
@@ -125,7 +127,7 @@ def solved(ctx, spec_id, solver):
     for op, (fn, kw) in CALC.items():
         q = copy.deepcopy(a)
         with np.errstate(all='ignore'):
-            refs[op] = val(getattr(pyPRISM.calculate, fn)(q, **kw), sp['types'])
+            refs[op] = val(getattr(pyPRISM.calculate, fn)(q, **kw), [G.lab(sp, t) for t in sp['types']])
     q = copy.deepcopy(a)
     gref = np.asarray(pyPRISM.calculate.pair_correlation(q).data)
     _cache[key] = (sp, a, refs, gref > 1e-3)
@@ -197,7 +199,7 @@ def run_case(ctx, case):
     if pack is None:
         raise core.Skip('base solve did not converge')
     sp, pristine, refs, gmask = pack
-    types = sp['types']
+    types = [G.lab(sp, t) for t in sp['types']]
     dr = sp['dr']
     p = copy.deepcopy(pristine)
     method, opts = SOLVERS[case['solver']]
